@@ -655,6 +655,13 @@ namespace
         }
     };
 
+    // ---------- references (C13) ----------
+    struct VToBool
+    {
+        static constexpr auto name = "v_tobool";
+        static void           eval(In<"x", TS<Int>> x, Out<TS<Bool>> out) { out.set(x.value() != 0); }
+    };
+
     using TryIntResult = UnNamedTSB<Field<"exception", TS<NodeError>>, Field<"out", TS<Int>>>;
 
     struct VTryOut
@@ -896,6 +903,12 @@ namespace
                 else { env.ports.emplace(id, wire<stdlib::reduce_>(w, f, d).as<TS<Int>>()); }
             }
             else if (kind == "rrec") { wire<VRRec>(w, sid, resolve(env, sp.ins.at(0)), env.dports.at(std::stol(sp.ins.at(1)))); }
+            else if (kind == "ite")
+            {
+                // in=<cond int>,<then>,<else>: the result is a reference to the selected input (stdlib::if_then_else)
+                auto cond = wire<VToBool>(w, in.at(0));
+                env.ports.emplace(id, wire<stdlib::if_then_else>(w, cond, in.at(1), in.at(2)).as<TS<Int>>());
+            }
             else if (kind == "sched") { wire<VSched>(w, sid, in.at(0)); }
             else if (kind == "lsrc") { env.ports.emplace(id, wire<LSrc>(w, sid, Int{l.geti("cnt", 2)})); }
             else if (kind == "lpass") { env.ports.emplace(id, wire<LPass>(w, sid, in.at(0))); }
